@@ -355,3 +355,10 @@ def x19(cx: Cx, ob: Ob) -> None:
     from .c02 import d5 as expand_reference_rule
 
     expand_reference_rule.fn(cx, ob) if hasattr(expand_reference_rule, "fn") else expand_reference_rule(cx, ob)
+
+
+@obligation("C07-X3", "no memoised derived values (cached_property / lru_cache) on Record, Reference or Converter objects (shared with C05): is_curie / expand / parse and the *_or_standardize functions answer from tables built from the records' name lists - a cached view of those lists (or of a query result) that outlives an in-place merge makes 'its prefix is known' disagree with what the records say", floor=3)
+def x3(cx: Cx, ob: Ob) -> None:
+    from ..rules import cached_derivations
+
+    cached_derivations(cx, ob)
